@@ -39,7 +39,8 @@ VARIANTS = {
     'ukf': [{}],
     'aqua_imu': [{}, {'alpha': 0.1, 'beta': 0.1}, {'alpha': 0.3, 'beta': 0.3}, {'alpha': 0.1, 'beta': 0.1, 'adaptive': True}],
     'aqua_marg': [{}, {'alpha': 0.1, 'beta': 0.1}, {'alpha': 0.3, 'beta': 0.3}, {'alpha': 0.1, 'beta': 0.1, 'adaptive': True}],
-    'roleq': [{'frame': 'NED'}, {'frame': 'ENU'}, {'frame': 'NED', 'weights': [0.5, 0.5]}, {'frame': 'ENU', 'magnetic_ref': 'vector'}],
+    'roleq': [{'frame': 'NED'}, {'frame': 'ENU'}, {'frame': 'NED', 'weights': [0.5, 0.5]}, {'frame': 'ENU', 'magnetic_ref': 'vector'},
+              {'frame': 'NED', 'weights': [1.0, 0.0]}, {'frame': 'ENU', 'weights': [2.0, 0.0]}],      # accelerometer-only: judged on tilt
     'complementary_imu': [{}, {'gain': 0.5}, {'gain': 0.98}],
     'complementary_marg': [{}, {'gain': 0.5}, {'gain': 0.98}],
     'fkf': [{}],
@@ -97,10 +98,13 @@ def error_history(scn, n, with_twin=False):
     a_meas = hist.acc[key][0]
     a_vec = np.array(a_ref, dtype=float)
 
+    w_ = scn['params'].get('weights')
+    tilt_only = kind.tilt_only or (w_ is not None and float(w_[1]) == 0.0)      # magnetometer weighted out: heading unobservable
+
     def err_of(q):
         if not isinstance(q, np.ndarray) or q.shape != (4,) or not np.all(np.isfinite(q)) or np.iscomplexobj(q):
             return float('nan')
-        if kind.tilt_only:
+        if tilt_only:
             r = qm.q2R(qm.qconj(q) if kind.conj else q).T @ a_vec
             return qm.vec_angle(r, a_meas)
         return qm.rot_angle(q, target)
